@@ -1,5 +1,12 @@
-"""Non-Kani verification units (ESC encoder, syntactic side conditions) and per-property assumption text."""
+"""Non-Kani verification units (ESC encoder, syntactic side conditions of the stubs/assumptions) and
+per-property assumption text."""
 import os
+import re
+import subprocess
+import time
+
+import esc
+import kani_run
 
 VERIF = os.path.dirname(os.path.dirname(os.path.abspath(__file__)))
 
@@ -7,27 +14,213 @@ COMMON_ASSUMPTIONS = [
     "Bounds are exactly those listed per sample; nothing outside them is claimed (bounded verification, not a proof).",
     "Unwinding assertions are on: a loop bound that is too small is reported as inconclusive, never as a pass.",
     "Error messages are not modelled (color-eyre shim); error paths are.",
+    "A1: no guard or stack effect reads the payload of a simulated object (only its variant) — re-checked syntactically on every run by unit side_a1_payload_free.",
+    "Composition of the layered contracts (GUARD/STEP -> EMIT -> TAIL/HEAD) is a paper induction over solver-checked lemmas (DESIGN.md §3.3).",
 ]
 
 
 def setup(log):
+    # the committed reference table must equal a fresh generation from this CPython
+    import tempfile
+    gen = os.path.join(VERIF, "oracle", "gen_ref_table.py")
+    with tempfile.NamedTemporaryFile("w", suffix=".rs", delete=False) as fh:
+        tmp = fh.name
+    try:
+        subprocess.run(["/usr/bin/python3", gen, tmp], check=True)
+        a = open(tmp).read()
+        b = open(os.path.join(VERIF, "harness", "kani", "ref_table.rs")).read()
+        if a != b:
+            log("setup: harness/kani/ref_table.rs differs from a fresh generation from pickletools")
+            return 2
+    finally:
+        os.unlink(tmp)
+    for tool in ("z3-new", "cvc5"):
+        r = subprocess.run([tool, "--version"], capture_output=True, text=True)
+        if r.returncode != 0:
+            log("setup: %s not runnable" % tool)
+            return 2
+    log("setup: reference table matches CPython pickletools; z3-new and cvc5 present")
     return 0
 
 
-def run_unit(u, overlay_dir, tier, log):
-    raise NotImplementedError(u["kind"])
+def _res(verdict, reasons=(), **kw):
+    d = {"verdict": verdict, "reasons": list(reasons), "time_s": kw.pop("time_s", 0), "solver_s": kw.pop("solver_s", 0)}
+    d.update(kw)
+    return d
+
+
+def _native_cases(overlay_dir, cases, log_name):
+    """run the native esc_native_cases test in the overlay on the given cases -> (ok, log text)"""
+    path = os.path.join(overlay_dir, "esc_cases.txt")
+    with open(path, "w") as fh:
+        for arm, inp, exp in cases:
+            fh.write("%s x%s %s\n" % ("S" if arm == "String" else "V", inp.hex(), ("x" + exp.hex()) if exp is not None else "-"))
+    env = kani_run._env()
+    env["CARGO_TARGET_DIR"] = os.path.join(kani_run.CACHE, "playback-target")
+    env["VERIF_ESC_CASES"] = path
+    logp = os.path.join(overlay_dir, log_name)
+    with open(logp, "w") as lf:
+        subprocess.run(["cargo", "kani", "playback", "-Z", "concrete-playback", "--", "esc_native_cases", "--nocapture"],
+                       cwd=overlay_dir, env=env, stdout=lf, stderr=subprocess.STDOUT, timeout=1200)
+    txt = open(logp, errors="replace").read()
+    return ("test result: ok. 1 passed" in txt), txt
+
+
+def _esc_cases_line_fix(cases):
+    return cases
+
+
+def run_esc(u, overlay_dir, tier, log):
+    t0 = time.time()
+    arm = u["arm"]
+    L = 6 if tier == "quick" else 8
+    lo, hi = (0x00, 0x7f) if arm == "String" else (0x20, 0x7e)
+    src = open(os.path.join(overlay_dir, "src", "generator", "emission.rs")).read()
+    try:
+        stages, prefix, suffix = esc.parse_arm(src, arm)
+        # (1) validate the translator against the compiled code on ~200 strings
+        alphabet = [0x5c, 0x27, 0x0a, 0x0d, 0x09, 0x61] if arm == "String" else [0x5c, 0x27, 0x75, 0x55, 0x61, 0x20]
+        strs = [b""] + [bytes([a]) for a in alphabet] + [bytes([a, b]) for a in alphabet for b in alphabet]
+        strs += [bytes([a, b, c]) for a in alphabet[:5] for b in alphabet[:5] for c in alphabet[:5]]
+        strs += [b"\\x41", b"it's", b"a\\'b", b"\\\\", b"\\u0041", b"tab\there"] if arm == "String" else [b"\\u0041", b"\\\\u0041", b"a\\b"]
+        if arm != "String":
+            strs = [x for x in strs if all(0x20 <= c <= 0x7e for c in x)]
+        opb = bytes([0x53 if arm == "String" else 0x56])
+        cases = [(arm, x, opb + esc.interpret(stages, prefix, suffix, x)) for x in strs]
+        ok, txt = _native_cases(overlay_dir, cases, "esc_validate_%s.log" % arm)
+        if not ok:
+            return _res(kani_run.INCONCLUSIVE, ["ESC translator validation failed: the parsed chain disagrees with the compiled code "
+                                                 "(or the native test could not run): " + txt[-400:]], time_s=time.time() - t0)
+        # (2) the solver query
+        r = esc.decide(src, arm, L, lo, hi)
+    except esc.EscError as e:
+        return _res(kani_run.INCONCLUSIVE, ["ESC cannot parse the escaping chain of the %s arm: %s" % (arm, e)], time_s=time.time() - t0)
+    info = r["info"]
+    base = dict(time_s=round(time.time() - t0, 2), solver_s=round(info["z3_s"] + info["cvc5_s"], 2), esc=info,
+                translator_cases_validated=len(cases), checks_total=2)
+    if r["verdict"] == "ok":
+        return _res(kani_run.OK, **base)
+    if r["verdict"] == "inconclusive":
+        return _res(kani_run.INCONCLUSIVE, ["solvers disagree or did not answer: z3=%s cvc5=%s" % (info["z3"], info["cvc5"])], **base)
+    w = r["witness"]
+    # (3) replay the witness natively against the real emit_string
+    ok, txt = _native_cases(overlay_dir, [(arm, w, None)], "esc_replay_%s.log" % arm)
+    reasons = ["%s arm emits a malformed argument for the string %r (solver witness)" % (arm.upper(), w)]
+    if "ESC-REPRODUCED" in txt:
+        d = os.path.join(VERIF, "replays", u["props"][0])
+        os.makedirs(d, exist_ok=True)
+        path = os.path.join(d, u["name"] + ".esc")
+        with open(path, "w") as fh:
+            fh.write("// VERIF-REPLAY property=%s harness=%s file=esc\n" % (u["props"][0], u["name"]))
+            fh.write("// %s arm of emit_string: input string (hex) whose escaped form is not one well-formed lexeme\n" % arm)
+            fh.write("%s x%s -\n" % ("S" if arm == "String" else "V", w.hex()))
+        return _res(kani_run.FAIL, reasons, replay=path, **base)
+    return _res(kani_run.FAIL, reasons + ["not reproduced natively: " + txt[-300:]], **base)
 
 
 def esc_replay(path, txt, log):
-    log("ESC replay not built yet")
-    return 2
+    import overlay
+    import shutil
+    m = re.search(r"property=(\S+) harness=(\S+)", txt)
+    prop = m.group(1)
+    line = [l for l in txt.splitlines() if re.match(r"^[SV] x[0-9a-f]* -$", l)]
+    if not line:
+        log("no case in replay file")
+        return 2
+    arm, hx, _ = line[0].split(" ")
+    ov = os.path.join(os.environ.get("VERIF_SCRATCH", "/var/tmp"), "pfv.%d" % os.getpid())
+    try:
+        overlay.build(ov)
+        ok, out = _native_cases(ov, [("String" if arm == "S" else "Unicode", bytes.fromhex(hx[1:]), None)], "esc_replay.log")
+        if "ESC-REPRODUCED" in out:
+            log("replay against /repo's current tree: reproduced")
+            log("VIOLATION property=%s replay=%s" % (prop, path))
+            return 1
+        log("replay against /repo's current tree: %s" % ("not reproduced" if ok else "error"))
+        return 0 if ok else 2
+    finally:
+        shutil.rmtree(ov, ignore_errors=True)
+
+
+# ---- syntactic side conditions --------------------------------------------------------------------------
+
+def run_side(u, overlay_dir, tier, log):
+    t0 = time.time()
+    gen = os.path.join(overlay_dir, "src", "generator")
+    name = u["name"]
+    problems = []
+    if name == "side_a1_payload_free":
+        # A1: guards (validation.rs, utils.rs) never destructure a payload; effects (stack_ops.rs) only at the listed sites
+        pat = re.compile(r"StackObject::(Int|Float|Bool|Bytes|String|ByteArray|List|Tuple|Dict|Set|FrozenSet|Extension)\(\s*(?:ref\s+)?(?:mut\s+)?([a-z]\w*)")
+        for f in ("validation.rs", "utils.rs"):
+            for n, line in enumerate(open(os.path.join(gen, f)), 1):
+                for m in pat.finditer(line):
+                    if m.group(2) != "_":
+                        problems.append("%s:%d binds the payload of StackObject::%s in a guard" % (f, n, m.group(1)))
+        allowed = {"List": ("list",), "Dict": ("dict",), "Set": ("set",), "String": ("module_str", "name_str"),
+                   "Callable": ("inner",), "Instance": ("inst",)}
+        pat2 = re.compile(r"StackObject::(\w+)\(\s*(?:ref\s+)?(?:mut\s+)?([a-z]\w*)\s*\)")
+        src = open(os.path.join(gen, "stack_ops.rs")).read()
+        body = src[src.index("pub(super) fn process_stack_ops"):]
+        for m in pat2.finditer(body):
+            v, b = m.group(1), m.group(2)
+            if b == "_" or b in allowed.get(v, ()):
+                continue
+            # constructor calls such as StackObject::Int(value) are fine: they appear as expressions after `push(` / `=`
+            ctx = body[max(0, m.start() - 40):m.start()]
+            if re.search(r"(push\(|=\s*|\(\s*|Some\()\s*$", ctx) and "if let" not in ctx and "matches!" not in ctx:
+                continue
+            problems.append("stack_ops.rs binds the payload of StackObject::%s as `%s` in an effect arm" % (v, b))
+    elif name == "side_replace_char_patterns":
+        for f in os.listdir(gen):
+            if not f.endswith(".rs"):
+                continue
+            for n, line in enumerate(open(os.path.join(gen, f)), 1):
+                for m in re.finditer(r"\.replace\(\s*([^,]+),", line):
+                    if not re.match(r"^'(\\.|[^'\\])'$", m.group(1).strip()):
+                        problems.append("%s:%d .replace( with a non-char-literal pattern: %s" % (f, n, m.group(1).strip()))
+    elif name == "data_stdlib_scan":
+        p = os.path.join(overlay_dir, "data", "stdlib_complete.txt")
+        n = 0
+        longest = 0
+        for i, line in enumerate(open(p, "rb"), 1):
+            s = line.rstrip(b"\n")
+            n += 1
+            longest = max(longest, len(s))
+            if not s or any(c < 0x21 or c > 0x7e for c in s) or b"\\" in s:
+                problems.append("data/stdlib_complete.txt:%d is empty or not printable backslash-free ASCII" % i)
+                break
+            mod, _, attr = s.partition(b".")
+            if not mod:
+                problems.append("data/stdlib_complete.txt:%d has an empty module name" % i)
+                break
+        if longest > 100:
+            problems.append("a name line is longer than 100 bytes (%d)" % longest)
+        # the split itself: splitn(2,'.') of a non-empty line gives a non-empty first piece unless the line starts with '.'
+        src = open(os.path.join(gen, "emission.rs")).read()
+        if not re.search(r'format!\("\{\}\\n\{\}\\n",\s*module,\s*attr\)', src):
+            problems.append("get_random_module no longer formats \"{}\\n{}\\n\" from (module, attr): module_contract must be re-derived")
+        return _res(kani_run.OK if not problems else kani_run.INCONCLUSIVE, problems, time_s=round(time.time() - t0, 2),
+                    checks_total=n, lines=n, longest=longest)
+    else:
+        return _res(kani_run.INCONCLUSIVE, ["unknown side condition " + name])
+    # a broken side condition means a stub/assumption no longer matches the code: machinery, not a violation
+    return _res(kani_run.OK if not problems else kani_run.INCONCLUSIVE, problems[:5], time_s=round(time.time() - t0, 2), checks_total=1)
+
+
+def run_unit(u, overlay_dir, tier, log):
+    if u["kind"] == "esc":
+        return run_esc(u, overlay_dir, tier, log)
+    if u["kind"] == "side":
+        return run_side(u, overlay_dir, tier, log)
+    return _res(kani_run.INCONCLUSIVE, ["unknown unit kind " + u["kind"]])
 
 
 def assumptions_for(prop, units):
     out = list(COMMON_ASSUMPTIONS)
     for u in units:
         for s in u.get("stubs", []):
-            t = "stub in force for some queries: " + s
+            t = "stub/contract in force for some queries: " + s
             if t not in out:
                 out.append(t)
     return out
